@@ -45,8 +45,20 @@ type triple struct {
 // judge runs the library and the reference on one triple. Returns ("","") if fine.
 func judge(r *ev.Recorder, c *triple) (string, string) {
 	msg0, sig0, pk0 := append([]byte{}, c.Msg...), append([]byte{}, c.Sig...), append([]byte{}, c.PK...)
-	lib, out := pu.LibXMSSVerify(c.Msg, c.Sig, c.PK)
+	gMsg, okMsg := pu.Guard(c.Msg)
+	gSig, okSig := pu.Guard(c.Sig)
+	if len(c.Msg)%2 == 0 {
+		// signature and message as adjacent sub-slices of ONE buffer (how a parsed transaction hands them over):
+		// the signature slice's capacity runs over the message
+		whole, ok := pu.Guard(append(append([]byte{}, c.Sig...), c.Msg...))
+		gSig, gMsg = whole[:len(c.Sig)], whole[len(c.Sig):]
+		okMsg, okSig = ok, ok
+	}
+	lib, out := pu.LibXMSSVerify(gMsg, gSig, c.PK)
 	r.Eval(1)
+	if !okMsg() || !okSig() {
+		return c.Class + "/input-modified", c.Detail + ": Verify wrote into a caller's slice or the spare capacity behind it"
+	}
 	if out.Panicked && !out.IsString {
 		return c.Class + "/non-string-panic", fmt.Sprintf("%s: xmss.Verify raised %s", c.Detail, out)
 	}
